@@ -1,6 +1,7 @@
 HOOK_COMMITS = []
 NOTES = ("Every check is `./check <ID> --tier quick|thorough`; exit 0 held, 1 VIOLATION, 2 machinery failure. "
-         "Specifications are in specs/, drivers in harness/props/. Known findings are listed in KNOWN_FINDINGS.txt.")
+         "Specifications are in specs/, drivers in harness/props/. Known findings are listed in KNOWN_FINDINGS.txt. "
+         "Extension checks X01..X05 (not listed properties) run the same way; seeded changes and what catches them are under seeded/ (MATRIX.tsv).")
 NOT_APPLICABLE = {}
 CHECKS = {
  "C08": dict(
